@@ -8,7 +8,10 @@ from . import wavelib as W
 
 TRUSTED = ['numpy.fft.fft2 / torch.fft.fft2 compute the DFT that OdakModel/Fourier.lean defines (validated numerically on every '
            'generated shape through the full-pipeline correspondence)',
-           'the propagation pipelines and kernels are modelled by hand (OdakModel/Kernels.lean, Propagate.lean) and tied by correspondence']
+           'the kernels of both APIs are regenerated from the source on every run (translate/wavekernels.py -> Generated/WaveKernels.lean) and proved equal '
+           'to the model kernels (Lemmas/GenKernels.lean); the translator (AST patterns for linspace / meshgrid / exp(1j ...) / masks) is trusted and is '
+           'validated by running the regenerated kernels at Float against get_*_kernel',
+           'the propagation pipelines (order of FFTs, shifts and multiplications) are modelled by hand (OdakModel/Propagate.lean) and tied by correspondence']
 ASSUMPTIONS = ['all grid frequencies propagating: dx >= lambda/sqrt(2) (generated with a 3% margin; the exact boundary is a monitor class)',
                'torch kernels are float32: tolerance 5e-4 (NumPy float64: 1e-9)']
 
